@@ -121,7 +121,9 @@ PROPS = {
                       "float rules (phi, tanh, min*-approx, A-Min* in f32/f64): real-number semantics only; IEEE rounding is not bounded by any theorem"],
         rule=("8-bit: all 16 types: degree 2 EXHAUSTIVE (255^2 vectors each), degree 3 sampled 1e5 (2e6 thorough), degrees 4-30 random incl. boundary vectors "
               "(all +-127, ties, zeros, hard-limit thresholds 99/100/101), degrees 0/1 (documented panic); exact comparison of the emitted (dest, value) sequence "
-              "with the model and evaluation of the C04 predicate (one message per neighbour, sign rule, magnitude <= smallest other, hard-limit promotion, range) on "
+              "with the model and evaluation of the C04 predicate (one message per neighbour, sign rule, magnitude <= smallest other, hard-limit promotion, range, and "
+              "tracking of the real-valued rule evaluated at Float on inputs/8 within the proved constants (d-2)/2 resp. d-1; a promoted value needs a real "
+              "counterpart >= 100 - bound) on "
               "the implementation output; float: the 8 float types on 24000 (400000 thorough) working-range vectors (|x| <= 30 f64 / 14 f32, plus 0, 1e-300, 1e-30), "
               "degrees 2-30: every comparison in the tanh domain (tolerance 1e-11 f64, 2e-5 f32) against the Float instance of the generic model and against the "
               "box-plus product: phi / tanh / A-Min*-to-argmin exact, A-Min* others = box-plus of all inputs, min*-approx between exact-(d-2)ln2 and exact, sign "
